@@ -177,7 +177,7 @@ def fails_on_impl(c):
 def run(ctx, model_ok):
     rng = ctx.rng
     n = 400 if ctx.tier == "quick" else 4000
-    cases = [gen_case(rng, reserved=True)]
+    cases = [gen_case(rng, reserved=True)]      # the listed known finding's region (a program binding `builtins`) always runs first
     while len(cases) < n:
         cases.append(gen_case(rng))
     impl = run_impl(cases)
